@@ -265,7 +265,9 @@ def gen_natural_case(rng):
         ks = [(b"t", code)]
         recs = [[(b"t", rng.choice(pool)), (b"i", str(i).encode())] for i in range(n)]
     elif mode < 0.85:
-        kind, n = "natweak", rng.choice([3, 4, 6, 9])
+        # distinct texts natsort deems equal (01, 1) tie since the repair of natural-ties-hide-later-keys: the later key decides,
+        # the callback is a strict weak order and the full checker applies
+        kind, n = "nat", rng.choice([3, 4, 6, 9, 14])
         pool = [b"01", b"1", b"001", b"1a", b"01a", b"a1", b"a01", b"2", b"02"]
         c2 = rng.choice([0, 1, 4])
         ks = [(b"t", code), (b"b", c2)]
@@ -376,7 +378,10 @@ def gen_map_case(rng):
             fl = fl + "v"
         else:
             if code in (4, 5):
-                keys = rng.sample(MAPKEYS_NUM, min(n, len(MAPKEYS_NUM)))       # all-numeric keys (mixed: known finding)
+                # numeric and non-numeric keys mixed: numbers by value before strings (since the repair of
+                # dsl-sort-map-keys-number-vs-string-compared-lexically); keys on which strconv.ParseFloat and Miller's inference agree
+                pool = MAPKEYS_NUM + [k for k in MAPKEYS_STR if k not in (b"x,y",)]
+                keys = rng.sample(pool, min(n, len(pool))) if rng.random() < 0.7 else rng.sample(MAPKEYS_NUM, min(n, len(MAPKEYS_NUM)))
             elif nat:
                 keys = rng.sample([x for x in MAPKEYS_STR if x == x.lower()], min(n, 9))
             else:
@@ -439,6 +444,141 @@ def top_oracle(ks, inp, out):
     return None
 
 
+# ------------------------------------------------------------------ sort-within-records with options, nested (JSON) records
+JKEYS = ["a", "b", "c", "x", "y", "z", "k1", "k2", "k10", "K", "B", "01", "1", "001", "id", "meta", "_", "a,b", "zz", "m"]
+
+
+def gen_jmap(rng, depth, sorted_keys=False, nmax=5):
+    n = rng.choice([0, 1, 2, 3, nmax])
+    keys = rng.sample(JKEYS, min(n, len(JKEYS)))
+    if sorted_keys:
+        keys.sort(key=lambda k: k.encode())
+    out = []
+    for k in keys:
+        t = rng.random()
+        if depth > 0 and t < 0.4:
+            v = dict_pairs(gen_jmap(rng, depth - 1))
+        elif depth > 0 and t < 0.5:
+            v = [rng.choice([1, "s", dict_pairs(gen_jmap(rng, depth - 1, nmax=3))]) for _ in range(rng.choice([0, 1, 2]))]
+        else:
+            v = rng.choice([1, 2, 30, "v", "w1", "", "x y"])
+        out.append((k, v))
+    return out
+
+
+class dict_pairs(list):
+    """an ordered JSON object as a list of (key, value) pairs"""
+
+
+def jdump(v):
+    if isinstance(v, dict_pairs):
+        return "{" + ", ".join(json.dumps(k) + ": " + jdump(x) for k, x in v) + "}"
+    if isinstance(v, list):
+        return "[" + ", ".join(jdump(x) for x in v) + "]"
+    return json.dumps(v)
+
+
+def jterm(v):
+    if isinstance(v, dict_pairs):
+        return "(JM %s)" % coq_list(["(%s, %s)" % (coq_bytes(k.encode()), jterm(x)) for k, x in v])
+    if isinstance(v, list):
+        return "(JA %s)" % coq_list([jterm(x) for x in v])
+    return "(JS %s)" % coq_bytes(json.dumps(v).encode())
+
+
+def jrec_term(r):
+    return coq_list(["(%s, %s)" % (coq_bytes(k.encode()), jterm(x)) for k, x in r])
+
+
+def jflat(v, path=()):
+    if isinstance(v, dict_pairs):
+        return [pl for k, x in v for pl in jflat(x, path + (k,))]
+    return [(path, jdump(v))]
+
+
+def gen_swr_json_case(rng):
+    mode = rng.random()
+    recurse = natural = False
+    sel = None
+    if mode < 0.5:
+        recurse = True
+        natural = rng.random() < 0.3
+    elif mode < 0.7:
+        natural = rng.random() < 0.5
+    else:
+        sel = rng.sample(JKEYS, rng.choice([1, 2, 4]))
+        natural = rng.random() < 0.3
+    recs = [dict_pairs(gen_jmap(rng, 2 if recurse else 1, sorted_keys=rng.random() < 0.5, nmax=rng.choice([5, 8]))) for _ in range(rng.choice([1, 2, 3]))]
+    args = ["sort-within-records"] + (["-f", ",".join(sel)] if sel is not None and "," not in "".join(sel) else []) + (["-r"] if recurse else []) + (["-n"] if natural else [])
+    if sel is not None and "," in "".join(sel):
+        sel = [k for k in sel if "," not in k] or ["a"]
+        args = ["sort-within-records", "-f", ",".join(sel)] + (["-n"] if natural else [])
+    return args, recurse, natural, sel, recs
+
+
+def swr_json_oracle(recurse, natural, sel, inp, out):
+    """the property on (input, output) of sort-within-records with options"""
+    if len(inp) != len(out):
+        return "one output record per input record"
+    def asc(keys):
+        ks = [k.encode() for k in keys]
+        return all((nat_cmp(ks[i], ks[i + 1]) <= 0) if natural else (ks[i] <= ks[i + 1]) for i in range(len(ks) - 1))
+    def levels(v):
+        if isinstance(v, dict_pairs):
+            yield [k for k, _ in v]
+            for _, x in v:
+                yield from levels(x)
+    for a, b in zip(inp, out):
+        if sorted(jflat(a)) != sorted(jflat(b)):
+            return "every value is kept under its path (nested maps included; arrays untouched)"
+        if sel is None:
+            tops = list(levels(b)) if recurse else [[k for k, _ in b]]
+            if not all(asc(t) for t in tops):
+                return "keys ascending" + (" at every level" if recurse else "")
+        else:
+            kb = [k for k, _ in b]
+            first = [k for k in kb if k in sel]
+            if kb[:len(first)] != first or not asc(first):
+                return "the selected fields come first, in ascending order"
+            if [k for k in kb[len(first):]] != [k for k, _ in a if k not in sel]:
+                return "the other fields follow in record order"
+    return None
+
+
+def run_swr_json(ctx, rng, n, oracle_bad):
+    terms, meta = [], []
+    gen = [gen_swr_json_case(rng) for _ in range(n)]
+    texts = ["\n".join(jdump(r) for r in g[4]) + "\n" for g in gen]
+    from concurrent.futures import ThreadPoolExecutor
+    with ThreadPoolExecutor(4) as ex:       # process start-up dominates on a loaded machine
+        runs = list(ex.map(lambda gt: mlr_run(ctx, ["--ijson", "--ojson"] + gt[0][0], gt[1].encode(), timeout=120), zip(gen, texts)))
+    for (args, recurse, natural, sel, recs), text, (st, out, err) in zip(gen, texts, runs):
+        ctx.dist("sort-within-records:" + " ".join(a for a in args[1:] if a.startswith("-")))
+        ctx.count(("swr-json", tuple(args), text))
+        base = {"argv": ["mlr", "--ijson", "--ojson"] + args, "input": [jdump(r) for r in recs], "observed": out.decode("latin1")[:2000]}
+        try:
+            got = json.loads(out.decode() or "[]", object_pairs_hook=dict_pairs) if st == 0 else None
+        except ValueError:
+            got = None
+        if got is None or not isinstance(got, list):
+            ctx.violation(dict(base, broken="mlr-failed", status=st, stderr=err.decode("latin1")[-500:]))
+            continue
+        got = [dict_pairs(r) for r in got]
+        base["observed"] = [jdump(r) for r in got]
+        v = swr_json_oracle(recurse, natural, sel, recs, got)
+        if v:
+            oracle_bad.append(dict(base, law="sort-within-records: " + v, **{"class": "other"}))
+        terms.append("(%d, %s,\n  %s,\n  %s)" % ((1 if recurse else 0) + (2 if natural else 0),
+                                                coq_option(sel, lambda l: coq_list([coq_bytes(k.encode()) for k in l])),
+                                                coq_list([jrec_term(r) for r in recs]), coq_list([jrec_term(r) for r in got])))
+        meta.append(base)
+    return terms, meta
+
+
+def swr_json_oracle_failed(base, oracle_bad):
+    return any(v.get("argv") == base["argv"] and v.get("input") == base["input"] for v in oracle_bad)
+
+
 def map_entries(rec):
     return [[(b"k", k), (b"v", v)] for k, v in rec]
 
@@ -462,7 +602,7 @@ def run(ctx):
     ctx.assumptions = ["strings.ToLower modelled on ASCII", "sort.Slice is not modelled: its output is checked"]
     c06.gen_tables(ctx)
     forbidden_gate(ctx, ["Base", "C11", "C09"])
-    ok, why = check_props(ctx, "C09/Props.v", ["C09/Harness.vo", "C09/Proofs.vo", "C09/FloatMono.vo"])
+    ok, why = check_props(ctx, "C09/Props.v", ["C09/Harness.vo", "C09/Proofs.vo", "C09/FloatMono.vo", "C09/Natural.vo", "C09/StableSort.vo", "C09/VerbAny.vo", "C09/Within.vo", "C09/DslFlags.vo"])
     rng = ctx.rng
     nsort = int((700 if ctx.tier == "quick" else 20000) * SCALE)
     ngroups = int((60 if ctx.tier == "quick" else 1000) * SCALE)
@@ -539,7 +679,9 @@ def run(ctx):
             continue
         ngroups_ = len({tuple(dict(r).get(k) for k, _ in ks) for r in inp if all(k in dict(r) for k, _ in ks)})
         # at most 20 groups: sort.SliceStable is insertion sort, the verb model predicts the output exactly (kind 6)
-        terms.append(term(3 if kind in ("dsl", "map") else 6 if ngroups_ <= 20 else 0, ks, inp, out)); meta.append((kind, ks, args, inp, out))
+        # the generated values lie in the domain of C09_sort_with_any_stable_sort (exactly representable integers, no digit run
+        # above 2^63-1): the stable sorted arrangement is unique, so the insertion-sort model predicts the output for ANY number of groups
+        terms.append(term(3 if kind in ("dsl", "map") else 6, ks, inp, out)); meta.append((kind, ks, args, inp, out))
         if kind == "natpair":
             if sorted(map(tuple, out)) != sorted(map(tuple, inp)):
                 oracle_bad.append(dict(base, law="output is a permutation of the input, records unchanged", **{"class": "other"}))
@@ -563,6 +705,8 @@ def run(ctx):
     for i in (0, 5, 700, 800):
         if i < len(meta):
             ctx.sample({"argv": meta[i][2], "input": c11.show(meta[i][3]), "observed": c11.show(meta[i][4])})
+    with ctx.timed("impl_swr_json"):
+        jterms, jmeta = run_swr_json(ctx, rng, int((120 if ctx.tier == "quick" else 3000) * SCALE), oracle_bad)
     fixed_probes(ctx, oracle_bad)
     if not ok:
         if oracle_bad:
@@ -572,12 +716,15 @@ def run(ctx):
         return
     with ctx.timed("coq_cases"):
         bad, err = coq_eval_mismatches(ctx, "C09", "Base.Record C09.Model C09.Harness", "case", "chk", terms, shard=len(terms) // PAR + 1)
-        sbad, serr = [], ""
+        sbad, serr = coq_eval_mismatches(ctx, "C09j", "Base.Record C09.Model C09.WithinModel C09.Harness", "jcase", "chk_j", jterms, shard=len(jterms) + 1)
     ctx.cov["correspondence"] = {"cases": len(terms), "rejected_by_verified_checker": len(bad), 
                                  "rejected_examples": [{"argv": meta[i][2], "input": c11.show(meta[i][3]), "observed": c11.show(meta[i][4])} for i in bad[:4] if i >= 0]}
     if err or serr:
         ctx.violation({"broken": "correspondence-evaluation", "detail": (err + serr)[-2000:]}, found_input=False)
         return
+    for i in sbad[:5]:
+        if i >= 0 and not swr_json_oracle_failed(jmeta[i], oracle_bad):
+            ctx.violation(dict(jmeta[i], broken="C09.Harness.chk_j: mlr's sort-within-records output differs from the model swr_model (python oracle accepts it)"), found_input=False)
     reported = 0
     for i in bad[:60]:
         kind, ks, args, inp, out = meta[i]
